@@ -1,7 +1,7 @@
 (* C06 -- the ways of handing the Gaussians to LinearRTO: every prior family stands for its Gaussian factors,
    diagonal square roots obey the square-root law, the 5-tuple is the Posterior it builds. *)
 From CV Require Import Base.Tac Base.LinAlg Base.Cmp Base.QcLin Model.C06_RTO Proofs.C06_Lin.
-From Coq Require Import Ring QArith Qcanon.
+From Coq Require Import Ring QArith Qcanon Lqa.
 
 Section F.
 Variable R : Type.
@@ -92,6 +92,39 @@ Proof.
   rewrite mattvec_diag by (rewrite vmul_len; lia).
   rewrite matvec_diag by lia.
   apply vmul_assoc2; assumption.
+Qed.
+
+(* ---------- S^T S as a matrix (what the case files compare) acts as v |-> S^T (S v) ---------- *)
+Lemma map_const_seq s n : map (fun _ : nat => r0) (seq s n) = Vzero n.
+Proof. revert s; induction n as [|n IH]; intros s; simpl; [reflexivity|]. f_equal. apply IH. Qed.
+
+Lemma vadd_scale_seq b row (g : nat -> R) s :
+  Vadd (Vscale b row) (map g (seq s (length row))) = map (fun j => b * nth (j - s) row r0 + g j) (seq s (length row)).
+Proof.
+  revert s; induction row as [|a row IH]; intros s; simpl; [reflexivity|].
+  rewrite Nat.sub_diag. f_equal. rewrite IH. apply map_ext_in. intros j Hj. apply in_seq in Hj.
+  replace (j - s)%nat with (S (j - S s)) by lia. reflexivity.
+Qed.
+
+Lemma mattvec_cols n (S : mat) y : wf_mat n S ->
+  Mattvec n S y = map (fun j => Dot (col r0 S j) y) (seq 0 n).
+Proof.
+  intros H; revert y; induction H as [|row S' Hr HS IH]; intros y.
+  - simpl. destruct y; simpl; symmetry; apply map_const_seq.
+  - destruct y as [|b y]; simpl.
+    + symmetry. erewrite map_ext; [apply map_const_seq|]. intros j. reflexivity.
+    + rewrite IH. rewrite <- Hr. rewrite vadd_scale_seq. apply map_ext. intros j.
+      rewrite Nat.sub_0_r. ring.
+Qed.
+
+Theorem gram_law n (S : mat) v : wf_mat n S -> length v = n ->
+  Matvec (matmul r0 radd rmul n (transpose r0 n S) S) v = Mattvec n S (Matvec S v).
+Proof.
+  intros H Hv. rewrite (mattvec_cols n S (Matvec S v) H).
+  unfold matmul, transpose, matvec at 1. rewrite !map_map. apply map_ext. intros j.
+  rewrite (dot_comm R r0 r1 radd rmul rsub ropp Rth).
+  rewrite <- (adjoint_identity R r0 r1 radd rmul rsub ropp Rth n S v _ H Hv).
+  apply (dot_comm R r0 r1 radd rmul rsub ropp Rth).
 Qed.
 
 (* ---------- prior families ---------- *)
@@ -193,4 +226,90 @@ Proof.
   apply q_shape_wf in HA as [HA1 HA2]. apply q_shape_wf in HL as [HL1 HL2].
   unfold mk_lik, lik_wf. simpl. split; [exact HL2 | split; [exact HL1 |]].
   rewrite <- HA1. apply (matrix_model_wf Qc 0%Qc 1%Qc Qcplus Qcmult Qcminus Qcopp Qcrt). exact HA2.
+Qed.
+
+(* ---------- Qc: the boolean law check on an observed sqrtprec, at tolerance 0, gives the hypothesis of the theorems ---------- *)
+Lemma q_close0 a b : q_close 0 a b = true -> (a == b)%Q.
+Proof.
+  unfold q_close. intros H. apply Qle_bool_iff in H.
+  rewrite Qmult_0_l in H. apply Qabs.Qabs_Qle_condition in H. destruct H as [H1 H2].
+  lra.
+Qed.
+
+Lemma qc_close0 a b : qc_close 0 a b = true -> a = b.
+Proof. unfold qc_close. intros H. apply Qc_is_canon. apply q_close0. exact H. Qed.
+
+Lemma list_eqb_imp {A} (eqb : A -> A -> bool) : (forall a b, eqb a b = true -> a = b) ->
+  forall x y, list_eqb eqb x y = true -> x = y.
+Proof.
+  intros H x; induction x as [|a x IH]; intros [|b y] E; simpl in E; try discriminate; [reflexivity|].
+  apply andb_true_iff in E as [E1 E2]. f_equal; [apply H; exact E1 | apply IH; exact E2].
+Qed.
+
+Lemma qcll_close0 A B : qcll_close 0 A B = true -> A = B.
+Proof. apply list_eqb_imp. apply list_eqb_imp. apply qc_close0. Qed.
+
+(* sqrtprec_ok at tolerance 0: the observed S is a square root, in the sense of the theorems, of the precision
+   the user specified *)
+Theorem sqrtprec_ok_sound f n g S P : sqrtprec_ok 0 f n g S = true -> user_prec f n g = Some P ->
+  sqrt_law Qc 0%Qc Qcplus Qcmult n S P.
+Proof.
+  unfold sqrtprec_ok. intros H E. rewrite E in H.
+  apply andb_true_iff in H as [H _]. apply andb_true_iff in H as [Hs Hg].
+  apply q_shape_wf in Hs as [_ Hw]. apply qcll_close0 in Hg.
+  intros v Hv. rewrite <- Hg. unfold q_gram, qmatmul, qtranspose.
+  symmetry. apply (gram_law Qc 0%Qc 1%Qc Qcplus Qcmult Qcminus Qcopp Qcrt); assumption.
+Qed.
+
+(* ---------- the certificate of one transition, at tolerance 0, is the Prop-level normal equation ---------- *)
+Lemma qmaxabs_nonneg v : (0 <= qmaxabs v)%Q.
+Proof.
+  induction v as [|a v IH]; simpl; [apply Qle_refl|].
+  destruct (Qle_bool (qabs_c a) (qmaxabs v)) eqn:E; [exact IH | apply Qabs.Qabs_nonneg].
+Qed.
+
+Lemma qmaxabs_ge v x : In x v -> (qabs_c x <= qmaxabs v)%Q.
+Proof.
+  induction v as [|a v IH]; intros Hin; [destruct Hin|]. simpl.
+  destruct (Qle_bool (qabs_c a) (qmaxabs v)) eqn:E.
+  - apply Qle_bool_iff in E. destruct Hin as [<-|Hin]; [exact E | apply IH; exact Hin].
+  - assert (L : (qmaxabs v < qabs_c a)%Q).
+    { apply Qnot_le_lt. intros C. apply Qle_bool_iff in C. congruence. }
+    destruct Hin as [<-|Hin]; [apply Qle_refl|]. eapply Qle_trans; [apply IH; exact Hin | apply Qlt_le_weak; exact L].
+Qed.
+
+Lemma qc_abs0 (x : Qc) : (qabs_c x <= 0)%Q -> x = 0%Qc.
+Proof.
+  unfold qabs_c. intros H. apply Qabs.Qabs_Qle_condition in H. destruct H as [H1 H2].
+  apply Qc_is_canon. simpl. lra.
+Qed.
+
+Lemma qvsub_zero_eq a b : length a = length b -> (qmaxabs (qvsub a b) <= 0)%Q -> a = b.
+Proof.
+  revert b; induction a as [|x a IH]; intros [|y b] Hl H; simpl in *; try lia; [reflexivity|].
+  assert (Hx : (qabs_c (x - y)%Qc <= 0)%Q).
+  { eapply Qle_trans; [|exact H]. apply (qmaxabs_ge ((x - y)%Qc :: qvsub a b)). left. reflexivity. }
+  assert (Hr : (qmaxabs (qvsub a b) <= 0)%Q).
+  { destruct (Qle_bool (qabs_c (x - y)%Qc) (qmaxabs (qvsub a b))) eqn:E; [exact H|].
+    eapply Qle_trans; [|exact H].
+    assert (L : (qmaxabs (qvsub a b) < qabs_c (x - y)%Qc)%Q).
+    { apply Qnot_le_lt. intros C. apply Qle_bool_iff in C. congruence. }
+    apply Qlt_le_weak. exact L. }
+  f_equal.
+  - apply qc_abs0 in Hx. assert (E : x = (x - y + y)%Qc) by ring. rewrite E, Hx. ring.
+  - apply IH; [lia | exact Hr].
+Qed.
+
+Lemma vclose_sup0 a b : vclose_sup 0 a b = true -> a = b.
+Proof.
+  unfold vclose_sup. intros H. apply andb_true_iff in H as [Hl Hq].
+  apply Nat.eqb_eq in Hl. apply Qle_bool_iff in Hq. rewrite Qmult_0_l in Hq.
+  apply qvsub_zero_eq; assumption.
+Qed.
+
+Theorem check_draw_sound n ls pr e x : check_draw 0 n ls pr e x = true ->
+  normal_eq Qc 0%Qc Qcplus Qcmult n (mk_liks n ls) pr e x.
+Proof.
+  unfold check_draw, normal_eq. intros H. apply andb_true_iff in H as [_ H].
+  apply vclose_sup0 in H. exact H.
 Qed.
